@@ -41,7 +41,42 @@ def run_impl(ctx, tag, lines):
         out += more
     if len(out) != len(lines):
         raise RuntimeError("harness failed: rc=%s %s (%d of %d answers)" % (rc, err, len(out), len(lines)))
+    _compare_builds(ctx, tag, lines, out)
     return out
+
+
+def _compare_builds(ctx, tag, lines, out):
+    """A sample of the same requests is answered by the harness built WITHOUT debug assertions (profile `plain`: code inside
+    `debug_assert!` is not executed there). Its answers must be the ones of the checked build; a difference is recorded as a
+    correspondence disagreement (`ctx.build_diffs`) and makes check.py repeat the oracles on that build."""
+    if t2nlib.HARNESS_BIN == t2nlib.HARNESS_PLAIN or not os.path.exists(t2nlib.HARNESS_PLAIN):
+        return
+    idx = [i for i in range(len(lines)) if (i < 3000 or i % 11 == 0) and out[i] != "PANIC" and len(lines[i]) < 20000][:80000]
+    if not idx:
+        return
+    reqp, outp = ctx.path(tag + ".preq"), ctx.path(tag + ".pimpl")
+    with open(reqp, "w", encoding="utf-8") as f:
+        for i in idx:
+            f.write(lines[i] + "\n")
+    rc, err = t2nlib.run_exec(t2nlib.HARNESS_PLAIN, reqp, outp)
+    got = open(outp, encoding="utf-8").read().split("\n")
+    diffs = getattr(ctx, "build_diffs", None)
+    if diffs is None:
+        diffs = ctx.build_diffs = []
+    ctx.plain_requests = getattr(ctx, "plain_requests", 0) + len(idx)
+    for j, i in enumerate(idx):
+        g = got[j] if j < len(got) - 1 or (j < len(got) and rc == 0) else "ABORT rc=%s" % rc
+        if g != out[i]:
+            if len(diffs) < 50:
+                diffs.append({"request": lines[i][:2000], "impl": g[:600], "model": "(build with debug assertions, equal to the model on the streams) " + out[i][:600],
+                              "build": "no-debug-assertions", "stream": "oracle requests " + tag})
+            if g.startswith("ABORT"):
+                break
+    for f_ in (reqp, outp):
+        try:
+            os.unlink(f_)
+        except OSError:
+            pass
 
 
 # Unicode White_Space (what Rust's char::is_whitespace tests). Python's str.isspace() also accepts U+001C–U+001F, which
@@ -50,6 +85,28 @@ _WS_SET = set("\t\n\x0b\x0c\r \x85\xa0\u1680\u2000\u2001\u2002\u2003\u2004\u2005
 
 
 _WS_RE = re.compile("[" + "".join(re.escape(c) for c in sorted(_WS_SET)) + "]+")
+
+
+_ALPHA = None
+
+
+def is_alphabetic(c):
+    """Unicode `Alphabetic` as Rust's std sees it (its table is dumped by the harness from `char::is_alphabetic`; Python's
+    `str.isalpha` is only the general categories L*, which leaves out letter numbers such as the Roman numeral U+2167 and the
+    Other_Alphabetic marks). The standard library is part of the trusted base, not of the code under test."""
+    global _ALPHA
+    if _ALPHA is None:
+        import bisect
+        lo, hi = [], []
+        for line in open(t2nlib.ensure_cc_table(), encoding="utf-8"):
+            f = line.split()
+            if len(f) == 3 and f[0] == "A":
+                lo.append(int(f[1]))
+                hi.append(int(f[2]))
+        _ALPHA = (lo, hi, bisect)
+    lo, hi, bisect = _ALPHA
+    i = bisect.bisect_right(lo, ord(c)) - 1
+    return i >= 0 and ord(c) <= hi[i]
 
 
 def is_ws(s):
@@ -988,6 +1045,17 @@ def oracle_c06(ctx, focus):
                         t = unesc(m_) + joiner + sc + " " + unesc(d_)
                         reqs.append("occ\t%s\t%s\t%s" % (lang, THR0, esc(t)))
                         meta.append((lang, t))
+        # float-reader torture: dictated fractions that are exact binary midpoints (2^-k * (1 + 2^-53), k + 53 decimals), just
+        # above and just below them -- the value must be the correctly rounded reading of ALL the digits shown
+        dig = {int(g.split("\t")[3]): ph for (g, ph, e_) in _spec_cases(ctx, "c06t" + lang, ["gen\tcard\t%s\t%d\t0" % (lang, d) for d in range(10)])}
+        if len(dig) == 10:
+            for k in ((1, 20, 64, 347, 348, 500, 1000) if ctx.tier != "thorough" else (1, 2, 5, 20, 52, 64, 200, 346, 347, 348, 349, 400, 500, 747, 1000, 1021)):
+                mid = str(5 ** (k + 53) * (2 ** 53 + 1)).rjust(k + 53, "0")     # digits of 2^-k * (1 + 2^-53)
+                for ip in (0, 1, 7):
+                    for fr in (mid, mid + "1", mid[:-1] + "49", mid[:400], mid[:401]):
+                        t = dig[ip] + " " + b["dec"] + " " + " ".join(dig[int(c)] for c in fr)
+                        reqs.append("occ\t%s\t%s\t%s" % (lang, THR0, esc(t)))
+                        meta.append((lang, t))
     outs = run_impl(ctx, "c06", reqs)
     for r, o, (lang, t) in zip(reqs, outs, meta):
         n += 1
@@ -1205,7 +1273,7 @@ def oracle_c09(ctx, focus):
                 tx = tok[0]
                 if _is_skipped_text(tx):
                     return True
-                if all(not c.isalpha() for c in tx) and tx.strip() != ".":
+                if all(not is_alphabetic(c) for c in tx) and tx.strip("".join(_WS_SET)) != ".":
                     return True
                 return tx.lower() in linkset
             adj = [all(ignorable(toks[x]) for x in range(base[i][1], base[i + 1][0])) for i in range(len(base) - 1)]
